@@ -1,4 +1,5 @@
 import BeyondVerif.Model.DateCfg
+import BeyondVerif.Model.EopFile
 import BeyondVerif.Generated.TdbF
 import BeyondVerif.Drv.Util
 /-! Line-protocol handler of C03 (dates). Times travel as decimal integers (ticks of 1e-7 s or microseconds). -/
@@ -31,6 +32,9 @@ def errStr : Err → String
   | .fuel => "fuel"
 
 def b (x : Bool) : String := if x then "1" else "0"
+
+/-- a file line travels with `~` for every blank (request lines are split at blanks) -/
+def decodeLine (s : String) : List Char := s.toList.map (fun c => if c == '~' then ' ' else c)
 
 /-- scale, `_datetime` µs, `datetime` µs, `_offset` ticks, eop (ticks), `d*D + s` of the scale's own clock (ticks) -/
 def showDate (x : Date) : String :=
@@ -90,6 +94,46 @@ def handle : List String → Option String
     | .zeroSilent => return "zero-silent"
     | .zeroWarned => return "zero-warned"
     | .raised => return "raised"
+  -- SimpleEopDatabase.tai_utc(mjd) alone (also outside the days of the finals files), mjd = num / D
+  | ["d3tai", num] => some <| Id.run do
+    let some num := iOfStr? num | return "bad-op"
+    match taiUtcAt leapTable num with
+    | some v => return s!"ok {v}"
+    | none => return "err key"
+  -- TaiUtc.get_last_next(mjd): past and future entries
+  | ["d3lnx", num] => some <| Id.run do
+    let some num := iOfStr? num | return "bad-op"
+    let sh : Option (Int × Int) → String := fun o => match o with
+      | some e => s!"{e.1} {e.2}"
+      | none => "none none"
+    let r := lastNext leapTable num
+    return s!"ok {sh r.1} {sh r.2}"
+  -- SimpleEopDatabase.finals(mjd)["ut1_utc"] alone: `_finals[int(mjd)]`
+  | ["d3fin", num] => some <| Id.run do
+    let some num := iOfStr? num | return "bad-op"
+    match finalsLookup (Int.tdiv num D) with
+    | some v => return s!"ok {v}"
+    | none => return "err key"
+  -- one line of tai-utc.dat (blanks travel as `~`) through the column parser of Model/EopFile.lean
+  | ["d3ptai", line] => some <|
+    match EopFile.taiLine (decodeLine line) with
+    | .skip => "skip"
+    | .crash => "crash"
+    | .entry m v => s!"ok {m} {v}"
+  | ["d3ptai"] => some "skip"
+  -- one line of finals.* / finals2000A.*
+  | ["d3pfin", line] => some <|
+    match EopFile.finLine (decodeLine line) with
+    | .crash => "crash"
+    | .stop m => s!"stop {m}"
+    | .row m u => s!"ok {m} {u}"
+  | ["d3pfin"] => some "crash"
+  -- the regenerated tables the theorems are instantiated with: entry i of leapTable, the finals cell of a day
+  | ["d3gleap", i] => some <| Id.run do
+    let some i := i.toNat? | return "bad-op"
+    match leapTable[i]? with
+    | some e => return s!"ok {e.1} {e.2}"
+    | none => return "end"
   | ["d3tdb", mjd] => some <| Id.run do
     let some x := fOfStr? mjd | return "bad-op"
     return fToStr (F.tdbMinusTt x)
